@@ -68,14 +68,15 @@ func via(v string) string {
 }
 
 type scenario struct {
-	Name     string
-	Upgrades string // "" | "local" | "remote-ok" | "remote-4xx" | "remote-unreachable" | "remote-stall"
-	Hooks    string // "" | "fast" | "fail" | "hang"
-	CapLimit int    // 0 = true capacities
-	Default  uint
-	Users    []userSpec
-	Clients  [][]cop
-	Policy   string // policy condition ("" = none)
+	Name      string
+	Upgrades  string // "" | "local" | "remote-ok" | "remote-4xx" | "remote-unreachable" | "remote-stall"
+	Hooks     string // "" | "fast" | "fail" | "hang"
+	CapLimit  int    // 0 = true capacities
+	Default   uint
+	Users     []userSpec
+	Clients   [][]cop
+	Policy    string // policy condition ("" = none)
+	Linearize bool   // the oracle judges histories: real-time precedence is part of the state key
 	// alternative configurations for reload scenarios (index 0 = initial)
 	Cfgs []cfgSpec
 }
@@ -454,6 +455,9 @@ func harnessKey() string {
 		}
 	}
 	k := mc.Repr(w.st) + "|A:" + w.digA + "|B:" + w.digB + fmt.Sprintf("|cfg:%d", w.cfgIx)
+	if w.sc.Linearize {
+		k += "|prec:" + w.precedenceKey()
+	}
 	if xw := vexec.GetWorld(); xw != nil {
 		// processes started and not yet waited for
 		for _, r := range xw.Starts {
